@@ -17,7 +17,7 @@ type BandConfig struct {
 	Ctor        string
 	Repeater    bool
 	Dwell400    bool
-	ExtraArgs   string // rendered extra constructor arguments (AS923 offset / suffix)
+	ExtraArgs   string  // rendered extra constructor arguments (AS923 offset / suffix)
 	Value       *Struct // the concrete band struct (outer, e.g. eu863Band)
 	Base        *Struct // embedded `band` struct
 	TypeName    string  // eu863Band
@@ -48,13 +48,13 @@ func (c *BandConfig) Canon() string {
 }
 
 type DataRate struct {
-	Index                int
-	Uplink, Downlink     bool
-	Modulation           string
-	SF, BW, BitRate      int
-	CodingRate           string
-	OCW                  int
-	Pos                  token.Pos
+	Index            int
+	Uplink, Downlink bool
+	Modulation       string
+	SF, BW, BitRate  int
+	CodingRate       string
+	OCW              int
+	Pos              token.Pos
 }
 
 func (d DataRate) Params() string {
@@ -62,8 +62,8 @@ func (d DataRate) Params() string {
 }
 
 type Channel struct {
-	Freq           int
-	MinDR, MaxDR   int
+	Freq            int
+	MinDR, MaxDR    int
 	Enabled, Custom bool
 }
 
@@ -218,11 +218,11 @@ func (c *BandConfig) IntSlice(field string) ([]int, error) {
 
 // Bands evaluates band.GetConfig for every (case name × repeater × dwell) configuration.
 type Bands struct {
-	Ev       *Evaluator
-	Prog     *load.Program
-	Configs  []*BandConfig
+	Ev        *Evaluator
+	Prog      *load.Program
+	Configs   []*BandConfig
 	CaseNames []string // every name constant handled by GetConfig
-	Problems []string
+	Problems  []string
 }
 
 func EvalBands(p *load.Program) (*Bands, error) {
